@@ -1,1 +1,856 @@
-From NV Require Import C12.Model.
+(* C12/Lemmas.v — proofs about C12/Model.v *)
+From Coq Require Import ZArith List Bool Lia ZifyBool.
+From NV Require Import Base.Bytes C12.Str C12.Model C12.Tables.
+Import ListNotations.
+Open Scope Z_scope.
+
+(* ------------------------------------------------------------------ well-formed tables *)
+Definition ieq (a b : str) : bool := str_eqb (lower a) (lower b).
+
+Fixpoint pairwise_not (R : str -> str -> bool) (l : list str) : bool :=
+  match l with
+  | [] => true
+  | x :: r => negb (existsb (R x) r) && pairwise_not R r
+  end.
+
+Definition exts_of (k : klass) : list str := map snd (ftypes k).
+
+(* what the name handling needs of a class's tables *)
+Definition wf_names (k : klass) : bool :=
+  negb (match ftypes k with [] => true | _ => false end)
+  && pairwise_not str_eqb (map fst (ftypes k))          (* member names distinct *)
+  && forallb dottedl (exts_of k)                        (* ".ext", lower-case alphanumerics *)
+  && pairwise_not str_eqb (exts_of k)                   (* member extensions distinct *)
+  && forallb dotted (csuf k)                            (* ".sfx", alphanumerics, any case *)
+  && pairwise_not ieq (csuf k)                          (* suffixes distinct up to case *)
+  && forallb (fun e => negb (existsb (ieq e) (csuf k))) (exts_of k).   (* no extension is a suffix *)
+
+(* what filespec_to_file_map / load need on top of that *)
+Definition wf_class (k : klass) : bool :=
+  wf_names k
+  && (fkind k <? 2)
+  && forallb (fun v => existsb (str_eqb v) (exts_of k) || ((fkind k =? 1) && str_eqb v MGZ)) (vexts k)
+  && (negb (fkind k =? 1)
+      || ((match csuf k with [] => true | _ => false end) && negb (sniffs k)
+          && negb (existsb (str_eqb MGZ) (exts_of k)))).
+
+(* every class of all_image_classes is well formed, except that AFNIImage's
+   filespec_to_file_map is outside the model (kind 2; its name tables are well formed) *)
+Definition wf_table (ks : list klass) : bool :=
+  forallb (fun k => wf_class k || ((fkind k =? 2) && wf_names k && negb (sniffs k))) ks.
+
+Lemma all_classes_wf : wf_table all_classes = true.
+Proof. vm_compute; reflexivity. Qed.
+
+Lemma opener_keys_wf : forallb dotted opener_keys = true /\ forallb dotted image_opener_keys = true.
+Proof. split; vm_compute; reflexivity. Qed.
+
+(* ------------------------------------------------------------------ small list facts *)
+Lemma pairwise_not_NoDup l : pairwise_not str_eqb l = true -> NoDup l.
+Proof.
+  induction l as [|x l IH]; simpl; intros H; constructor.
+  - apply andb_true_iff in H as [H _]. apply negb_true_iff in H.
+    intros Hin. assert (existsb (str_eqb x) l = true); [|congruence].
+    apply existsb_exists. exists x. split; [assumption|apply str_eqb_refl].
+  - apply IH. now apply andb_true_iff in H as [_ H].
+Qed.
+
+Lemma pairwise_not_spec R l : pairwise_not R l = true ->
+  forall a b r1 r2, l = r1 ++ a :: r2 -> In b r2 -> R a b = false.
+Proof.
+  induction l as [|x l IH]; intros H a b r1 r2 E Hb.
+  - destruct r1; discriminate.
+  - simpl in H. apply andb_true_iff in H as [H1 H2]. apply negb_true_iff in H1.
+    destruct r1 as [|y r1]; simpl in E; inversion E; subst.
+    + destruct (R a b) eqn:ER; [|reflexivity].
+      assert (existsb (R a) r2 = true); [|congruence]. apply existsb_exists. now exists b.
+    + eapply IH; eauto.
+Qed.
+
+Lemma NoDup_map_snd_inj {A B} (l : list (A * B)) a b :
+  NoDup (map snd l) -> In a l -> In b l -> snd a = snd b -> a = b.
+Proof.
+  induction l as [|x l IH]; simpl; intros Hn Ha Hb E; [contradiction|].
+  inversion Hn as [|? ? Hx Hn']; subst.
+  destruct Ha as [<-|Ha], Hb as [<-|Hb]; auto.
+  - exfalso. apply Hx. rewrite E. now apply in_map.
+  - exfalso. apply Hx. rewrite <- E. now apply in_map.
+Qed.
+
+Lemma find_first {A} (f : A -> bool) l x :
+  In x l -> f x = true -> (forall y, In y l -> f y = true -> y = x) -> find f l = Some x.
+Proof.
+  induction l as [|a l IH]; simpl; intros Hin Hf Hu; [contradiction|].
+  destruct (f a) eqn:Fa.
+  - f_equal. apply Hu; auto.
+  - destruct Hin as [->|Hin]; [congruence|]. apply IH; auto.
+Qed.
+
+Lemma find_none_iff {A} (f : A -> bool) l : (forall y, In y l -> f y = false) -> find f l = None.
+Proof.
+  induction l as [|a l IH]; simpl; intros H; [reflexivity|].
+  rewrite (H a) by now left. apply IH. intros y Hy. apply H. now right.
+Qed.
+
+Lemma map_last {A B} (f : A -> B) w a b : map f w = a ++ [b] -> exists w0 c, w = w0 ++ [c] /\ f c = b /\ map f w0 = a.
+Proof.
+  intros H. destruct (@exists_last _ w) as (w0 & c & ->).
+  { intros ->. destruct a; discriminate. }
+  rewrite map_app in H. simpl in H. apply app_inj_tail in H as [H1 H2]. now exists w0, c.
+Qed.
+
+(* ------------------------------------------------------------------ generic facts (any name) *)
+Lemma strip_suffix_app mc sufs fn a ign :
+  strip_suffix mc sufs fn = (a, ign) -> a ++ opt_str ign = fn.
+Proof.
+  induction sufs as [|s r IH]; simpl; intros H.
+  - inversion H; subst. apply app_nil_r.
+  - destruct (ends mc fn s); [|now apply IH].
+    inversion H; subst. simpl. apply py_head_tail_neg.
+Qed.
+
+Lemma strip_suffix_inv mc sufs fn a ign :
+  strip_suffix mc sufs fn = (a, Some ign) ->
+  exists t, In t sufs /\ ends mc fn t = true /\ a = py_head_neg (length t) fn /\ ign = py_tail_neg (length t) fn.
+Proof.
+  induction sufs as [|s r IH]; simpl; intros H; [discriminate|].
+  destruct (ends mc fn s) eqn:E.
+  - inversion H; subst. exists s. auto.
+  - destruct (IH H) as (t & Ht & H'). exists t. auto.
+Qed.
+
+Lemma match_type_inv mc tys fn n found rest :
+  match_type mc tys fn = Some (n, found, rest) ->
+  rest ++ found = fn /\ exists te, In (n, te) tys /\ te <> [] /\ ends mc fn te = true.
+Proof.
+  induction tys as [|[name te] r IH]; simpl; intros H; [discriminate|].
+  destruct (nonempty te && ends mc fn te) eqn:E.
+  - inversion H; subst. apply andb_true_iff in E as [E1 E2]. split; [apply py_head_tail_neg|].
+    exists te. split; [now left|]. split; [destruct te; [discriminate|congruence]|assumption].
+  - destruct (IH H) as (H1 & te' & Hin & H2). split; [assumption|]. exists te'. split; [now right|assumption].
+Qed.
+
+Lemma parse_filename_app mc tys sufs fn f e ign g :
+  parse_filename mc tys sufs fn = (f, e, ign, g) -> f ++ e ++ opt_str ign = fn.
+Proof.
+  unfold parse_filename. destruct (strip_suffix mc sufs fn) as [fn1 ig] eqn:Es.
+  apply strip_suffix_app in Es.
+  destruct (match_type mc tys fn1) as [[[n found] rest]|] eqn:Em.
+  - intros H; inversion H; subst. apply match_type_inv in Em as [Em _].
+    now rewrite app_assoc, Em.
+  - destruct (os_splitext fn1) as [r x] eqn:Eo. intros H; inversion H; subst.
+    pose proof (os_splitext_app fn1) as Ho. rewrite Eo in Ho. simpl in Ho.
+    now rewrite app_assoc, Ho.
+Qed.
+
+Lemma parse_filename_guess mc tys sufs fn f e ign g :
+  parse_filename mc tys sufs fn = (f, e, ign, Some g) -> exists te, In (g, te) tys.
+Proof.
+  unfold parse_filename. destruct (strip_suffix mc sufs fn) as [fn1 ig].
+  destruct (match_type mc tys fn1) as [[[n found] rest]|] eqn:Em.
+  - intros H; inversion H; subst. apply match_type_inv in Em as (_ & te & Hin & _). now exists te.
+  - destruct (os_splitext fn1). discriminate.
+Qed.
+
+(* dictionaries *)
+Lemma dict_get_set d k v k' :
+  dict_get (dict_set d k v) k' = if str_eqb k k' then Some v else dict_get d k'.
+Proof.
+  induction d as [|[k0 v0] d IH]; simpl.
+  - reflexivity.
+  - destruct (str_eqb k0 k) eqn:E0; simpl.
+    + apply str_eqb_eq in E0. subst k0. destruct (str_eqb k k'); reflexivity.
+    + rewrite IH. destruct (str_eqb k0 k') eqn:E1; [|reflexivity].
+      apply str_eqb_eq in E1. subst k0. rewrite (str_eqb_sym k k'), E0. reflexivity.
+Qed.
+
+Lemma fold_get T F X ign g dr tys : forall d n V,
+  (forall e, In (n, e) tys -> tf_value T F X ign g dr (n, e) = V) ->
+  dict_get (fold_left (tf_step T F X ign g dr) tys d) n =
+  if existsb (fun p => str_eqb (fst p) n) tys then Some V else dict_get d n.
+Proof.
+  induction tys as [|[n1 e1] r IH]; intros d n V HV; simpl; [reflexivity|].
+  rewrite (IH _ n V) by (intros e He; apply HV; now right).
+  destruct (existsb _ r); [now rewrite orb_true_r|]. rewrite orb_false_r.
+  unfold tf_step. rewrite dict_get_set. cbn [fst].
+  destruct (str_eqb n1 n) eqn:E; [|reflexivity].
+  apply str_eqb_eq in E. subst n1. f_equal. apply HV. now left.
+Qed.
+
+Lemma existsb_fst tys (n e : str) : In (n, e) tys -> existsb (fun p : str * str => str_eqb (fst p) n) tys = true.
+Proof. intros H. apply existsb_exists. exists (n, e). split; [assumption|apply str_eqb_refl]. Qed.
+
+(* every member gets a file name; a member named more than once keeps the last *)
+Lemma fold_get_some T F X ign g dr tys : forall d n,
+  existsb (fun p : str * str => str_eqb (fst p) n) tys = true ->
+  exists v, dict_get (fold_left (tf_step T F X ign g dr) tys d) n = Some v.
+Proof.
+  induction tys as [|[n1 e1] r IH]; intros d n H; [discriminate|]. simpl in *.
+  destruct (existsb (fun p : str * str => str_eqb (fst p) n) r) eqn:Ex.
+  - now apply IH.
+  - rewrite orb_false_r in H. apply str_eqb_eq in H. subst n1. eexists.
+    rewrite (fold_get _ _ _ _ _ _ r _ n []).
+    + rewrite Ex. unfold tf_step. rewrite dict_get_set. cbn [fst]. now rewrite str_eqb_refl.
+    + intros e0 He0. apply (existsb_fst r n e0) in He0. congruence.
+Qed.
+
+(* ------------------------------------------------------------------ types_filenames, any name *)
+Lemma restringify_id s c : c <> DOT -> restringify (s ++ [c]) = s ++ [c].
+Proof.
+  intros Hc. unfold restringify. destruct (s ++ [c]) eqn:E; [destruct s; discriminate|]. rewrite <- E.
+  unfold endswith. rewrite rev_app_distr. cbn [rev app prefixb].
+  destruct (DOT =? c) eqn:E1; [apply Z.eqb_eq in E1; congruence|reflexivity].
+Qed.
+
+Definition norm_template (t : str) : str := restringify (removesuffix_dot t).
+
+Lemma norm_template_id s c : c <> DOT -> norm_template (s ++ [c]) = s ++ [c].
+Proof. intros H. unfold norm_template. rewrite removesuffix_dot_id by assumption. now apply restringify_id. Qed.
+
+Lemma truthy_opt_str ign : (if truthy_opt ign then opt_str ign else []) = opt_str ign.
+Proof. destruct ign as [[|c s]|]; reflexivity. Qed.
+
+(* enforce_extensions=True (the only way nibabel calls it): the outcome in terms of the parse *)
+Lemma types_filenames_enforce mc tys sufs t :
+  types_filenames true mc tys sufs t =
+  let '(f, e, ign, g) := parse_filename mc tys sufs (norm_template t) in
+  if is_none g && nonempty e then Err ErrWrongExt
+  else if is_none g && truthy_opt ign then Err ErrConfusing
+  else Ok (fold_left (tf_step (removesuffix_dot t) f e ign g None) tys []).
+Proof.
+  unfold types_filenames, norm_template.
+  destruct (parse_filename mc tys sufs (restringify (removesuffix_dot t))) as [[[f e] ign] g].
+  cbn [andb negb]. reflexivity.
+Qed.
+
+(* whenever a member is guessed, its entry is the name given (minus a final dot) *)
+Lemma tf_guessed mc tys sufs t f e ign g :
+  parse_filename mc tys sufs (norm_template t) = (f, e, ign, Some g) ->
+  exists tf, types_filenames true mc tys sufs t = Ok tf /\ dict_get tf g = Some (norm_template t).
+Proof.
+  intros Hp. rewrite types_filenames_enforce, Hp. cbn [is_none andb].
+  eexists. split; [reflexivity|].
+  destruct (parse_filename_guess _ _ _ _ _ _ _ _ Hp) as [te Hin].
+  rewrite (fold_get _ _ _ _ _ _ tys [] g (norm_template t)).
+  - now rewrite (existsb_fst tys g te Hin).
+  - intros e0 _. unfold tf_value. cbn [opt_eqb]. rewrite str_eqb_refl.
+    apply parse_filename_app in Hp. rewrite <- Hp.
+    destruct (truthy_opt ign) eqn:Et.
+    + now rewrite <- app_assoc.
+    + rewrite <- (truthy_opt_str ign), Et, !app_nil_r. reflexivity.
+Qed.
+
+(* totality: a refusal, or a file name for every member *)
+Lemma tf_total mc tys sufs t :
+  (exists e, types_filenames true mc tys sufs t = Err e /\ (e = ErrWrongExt \/ e = ErrConfusing)) \/
+  (exists tf, types_filenames true mc tys sufs t = Ok tf /\
+     forall n e, In (n, e) tys -> exists v, dict_get tf n = Some v).
+Proof.
+  rewrite types_filenames_enforce.
+  destruct (parse_filename mc tys sufs (norm_template t)) as [[[f e] ign] g].
+  destruct (is_none g && nonempty e); [left; eexists; split; [reflexivity|now left]|].
+  destruct (is_none g && truthy_opt ign); [left; eexists; split; [reflexivity|now right]|].
+  right. eexists. split; [reflexivity|]. intros n e0 Hin.
+  apply fold_get_some. eapply existsb_fst; eauto.
+Qed.
+
+(* ------------------------------------------------------------------ names of the shape root ++ ext' ++ suffix' *)
+Lemma dottedi_nonempty x : dottedi x = true -> x <> [].
+Proof. destruct x; [discriminate|congruence]. Qed.
+
+Lemma strip_suffix_dotted sufs r x :
+  forallb dottedi sufs = true -> dottedi x = true ->
+  strip_suffix false sufs (r ++ x) =
+  if existsb (ieq x) sufs then (r, Some x) else (r ++ x, None).
+Proof.
+  intros Hs Hx. induction sufs as [|t sufs IH]; simpl; [reflexivity|].
+  simpl in Hs. apply andb_true_iff in Hs as [Ht Hs].
+  rewrite (iendswith_dotted r x t Hx Ht). fold (ieq x t).
+  destruct (ieq x t) eqn:E; simpl.
+  - unfold ieq in E. apply str_eqb_eq in E. apply lower_eq_length in E. rewrite <- E.
+    destruct (py_neg_app r x (dottedi_nonempty x Hx)) as [-> ->]. reflexivity.
+  - now apply IH.
+Qed.
+
+Lemma match_type_dotted tys r x :
+  forallb dottedi (map snd tys) = true -> dottedi x = true ->
+  match_type false tys (r ++ x) =
+  match find (fun p => ieq x (snd p)) tys with
+  | Some (n, _) => Some (n, x, r)
+  | None => None
+  end.
+Proof.
+  intros Hs Hx. induction tys as [|[n te] tys IH]; simpl; [reflexivity|].
+  simpl in Hs. apply andb_true_iff in Hs as [Ht Hs].
+  rewrite (iendswith_dotted r x te Hx Ht). fold (ieq x te).
+  assert (Hne : nonempty te = true) by (destruct te; [discriminate|reflexivity]).
+  rewrite Hne. cbn [andb].
+  destruct (ieq x te) eqn:E.
+  - unfold ieq in E. apply str_eqb_eq in E. apply lower_eq_length in E. rewrite <- E.
+    destruct (py_neg_app r x (dottedi_nonempty x Hx)) as [-> ->]. reflexivity.
+  - now apply IH.
+Qed.
+
+Lemma forallb_weaken {A} (p q : A -> bool) l : (forall x, p x = true -> q x = true) ->
+  forallb p l = true -> forallb q l = true.
+Proof. intros H. rewrite !forallb_forall. auto. Qed.
+
+(* unpacking wf_names *)
+Lemma wf_names_inv k : wf_names k = true ->
+  ftypes k <> [] /\ NoDup (map fst (ftypes k)) /\ forallb dottedl (exts_of k) = true /\
+  NoDup (exts_of k) /\ forallb dotted (csuf k) = true /\ pairwise_not ieq (csuf k) = true /\
+  (forall e s, In e (exts_of k) -> In s (csuf k) -> ieq e s = false).
+Proof.
+  unfold wf_names. rewrite !andb_true_iff. intros [[[[[[H1 H2] H3] H4] H5] H6] H7].
+  repeat split; auto.
+  - destruct (ftypes k); [discriminate|congruence].
+  - now apply pairwise_not_NoDup.
+  - now apply pairwise_not_NoDup.
+  - intros e s He Hs. rewrite forallb_forall in H7. specialize (H7 e He). apply negb_true_iff in H7.
+    destruct (ieq e s) eqn:E; [|reflexivity].
+    assert (existsb (ieq e) (csuf k) = true); [|congruence]. apply existsb_exists. now exists s.
+Qed.
+
+Lemma ieq_variant x x' y : lower x' = lower x -> ieq x' y = ieq x y.
+Proof. unfold ieq. now intros ->. Qed.
+
+(* the parse of root ++ ext' ++ suffix' *)
+Lemma parse_written k root nm e e' s' :
+  wf_names k = true -> In (nm, e) (ftypes k) -> lower e' = lower e ->
+  (s' = [] \/ exists s, In s (csuf k) /\ lower s' = lower s) ->
+  parse_filename false (ftypes k) (csuf k) (root ++ e' ++ s') =
+  (root, e', match s' with [] => None | _ => Some s' end, Some nm).
+Proof.
+  intros Hwf Hin He Hs.
+  destruct (wf_names_inv k Hwf) as (_ & _ & Hd & Hnd & Hsd & _ & Hes).
+  assert (He_in : In e (exts_of k)) by (apply (in_map snd) in Hin; exact Hin).
+  assert (Hde : dottedl e = true) by (rewrite forallb_forall in Hd; auto).
+  assert (Hle : lower e = e) by now apply dottedl_lower.
+  assert (Hde' : dottedi e' = true).
+  { apply (dottedi_variant e e' He). now apply dotted_dottedi, dottedl_dotted. }
+  assert (Hsufi : forallb dottedi (csuf k) = true) by (eapply forallb_weaken; [apply dotted_dottedi|assumption]).
+  assert (Hexti : forallb dottedi (map snd (ftypes k)) = true).
+  { eapply forallb_weaken; [|exact Hd]. intros x Hx. now apply dotted_dottedi, dottedl_dotted. }
+  assert (Hfind : find (fun p : str * str => ieq e' (snd p)) (ftypes k) = Some (nm, e)).
+  { apply find_first; [assumption| |].
+    - cbn [snd]. unfold ieq. rewrite He. apply str_eqb_refl.
+    - intros [n2 e2] Hin2 E2. cbn [snd] in E2. unfold ieq in E2. apply str_eqb_eq in E2.
+      assert (Hd2 : dottedl e2 = true) by (rewrite forallb_forall in Hd; apply Hd; apply (in_map snd) in Hin2; exact Hin2).
+      rewrite He, Hle, (dottedl_lower e2 Hd2) in E2.
+      apply (NoDup_map_snd_inj (ftypes k)); auto. }
+  unfold parse_filename.
+  destruct Hs as [->|(s & Hsin & Hls)].
+  - rewrite app_nil_r. rewrite (strip_suffix_dotted _ root e' Hsufi Hde').
+    assert (Ex : existsb (ieq e') (csuf k) = false).
+    { destruct (existsb (ieq e') (csuf k)) eqn:Ex; [|reflexivity].
+      apply existsb_exists in Ex as (t & Ht & Et). rewrite (ieq_variant e e' t He) in Et.
+      rewrite (Hes e t He_in Ht) in Et. discriminate. }
+    rewrite Ex. rewrite (match_type_dotted _ root e' Hexti Hde'), Hfind. reflexivity.
+  - assert (Hds' : dottedi s' = true).
+    { apply (dottedi_variant s s' Hls). apply dotted_dottedi. rewrite forallb_forall in Hsd. auto. }
+    rewrite app_assoc. rewrite (strip_suffix_dotted _ (root ++ e') s' Hsufi Hds').
+    assert (Ex : existsb (ieq s') (csuf k) = true).
+    { apply existsb_exists. exists s. split; [assumption|]. unfold ieq. rewrite Hls. apply str_eqb_refl. }
+    rewrite Ex. rewrite (match_type_dotted _ root e' Hexti Hde'), Hfind.
+    destruct s'; [discriminate|reflexivity].
+Qed.
+
+Lemma written_last k root nm e e' s' :
+  wf_names k = true -> In (nm, e) (ftypes k) -> lower e' = lower e ->
+  (s' = [] \/ exists s, In s (csuf k) /\ lower s' = lower s) ->
+  exists a c, root ++ e' ++ s' = a ++ [c] /\ c <> DOT.
+Proof.
+  intros Hwf Hin He Hs.
+  destruct (wf_names_inv k Hwf) as (_ & _ & Hd & _ & Hsd & _ & _).
+  assert (Hde' : dottedi e' = true).
+  { apply (dottedi_variant e e' He). apply dotted_dottedi, dottedl_dotted.
+    rewrite forallb_forall in Hd. apply Hd. apply (in_map snd) in Hin. exact Hin. }
+  destruct Hs as [->|(s & Hsin & Hls)].
+  - rewrite app_nil_r. destruct (dottedi_last e' Hde') as (a & c & -> & Hc).
+    exists (root ++ a), c. now rewrite app_assoc.
+  - assert (Hds' : dottedi s' = true).
+    { apply (dottedi_variant s s' Hls). apply dotted_dottedi. rewrite forallb_forall in Hsd. auto. }
+    destruct (dottedi_last s' Hds') as (a & c & -> & Hc).
+    exists (root ++ e' ++ a), c. now rewrite !app_assoc.
+Qed.
+
+(* ------------------------------------------------------------------ the named member and the others *)
+Definition suffix_ok (k : klass) (s' : str) : Prop :=
+  s' = [] \/ exists s, In s (csuf k) /\ lower s' = lower s.
+
+Lemma tf_named_member k root nm e e' s' :
+  wf_names k = true -> In (nm, e) (ftypes k) -> lower e' = lower e -> suffix_ok k s' ->
+  exists tf, types_filenames true false (ftypes k) (csuf k) (root ++ e' ++ s') = Ok tf
+             /\ dict_get tf nm = Some (root ++ e' ++ s').
+Proof.
+  intros Hwf Hin He Hs.
+  destruct (written_last k root nm e e' s' Hwf Hin He Hs) as (a & c & Ea & Hc).
+  pose proof (parse_written k root nm e e' s' Hwf Hin He Hs) as Hp.
+  assert (Hn : norm_template (root ++ e' ++ s') = root ++ e' ++ s') by (rewrite Ea; now apply norm_template_id).
+  rewrite <- Hn in Hp.
+  destruct (tf_guessed _ _ _ _ _ _ _ _ Hp) as (tf & Htf & Hg). exists tf. now rewrite Hn in Hg.
+Qed.
+
+Lemma NoDup_map_fst_inj {A B} (l : list (A * B)) a b :
+  NoDup (map fst l) -> In a l -> In b l -> fst a = fst b -> a = b.
+Proof.
+  induction l as [|x l IH]; simpl; intros Hn Ha Hb E; [contradiction|].
+  inversion Hn as [|? ? Hx Hn']; subst.
+  destruct Ha as [<-|Ha], Hb as [<-|Hb]; auto.
+  - exfalso. apply Hx. rewrite E. now apply in_map.
+  - exfalso. apply Hx. rewrite <- E. now apply in_map.
+Qed.
+
+(* the case rule, spelled out: all-upper spelling -> upper-case extension, otherwise the table's *)
+Lemma proc_ext_rule e' e2 : e' <> [] -> dottedl e2 = true ->
+  proc_ext e' e2 = if str_eqb e' (upper e') then upper e2 else e2.
+Proof.
+  intros Hn Hd. unfold proc_ext. destruct e' as [|c e']; [congruence|]. cbn [nonempty].
+  destruct (str_eqb (c :: e') (upper (c :: e'))); [reflexivity|].
+  rewrite (dottedl_lower e2 Hd). now destruct (str_eqb _ _).
+Qed.
+
+Lemma tf_other_members k root nm e e' s' nm2 e2 :
+  wf_names k = true -> In (nm, e) (ftypes k) -> lower e' = lower e -> suffix_ok k s' ->
+  In (nm2, e2) (ftypes k) -> nm2 <> nm ->
+  exists tf, types_filenames true false (ftypes k) (csuf k) (root ++ e' ++ s') = Ok tf
+             /\ dict_get tf nm2 = Some (root ++ (if str_eqb e' (upper e') then upper e2 else e2) ++ s').
+Proof.
+  intros Hwf Hin He Hs Hin2 Hne.
+  destruct (written_last k root nm e e' s' Hwf Hin He Hs) as (a & c & Ea & Hc).
+  pose proof (parse_written k root nm e e' s' Hwf Hin He Hs) as Hp.
+  assert (Hn : norm_template (root ++ e' ++ s') = root ++ e' ++ s') by (rewrite Ea; now apply norm_template_id).
+  destruct (wf_names_inv k Hwf) as (_ & Hnd & Hd & _ & _ & _ & _).
+  assert (Hd2 : dottedl e2 = true) by (rewrite forallb_forall in Hd; apply Hd; apply (in_map snd) in Hin2; exact Hin2).
+  assert (He'n : e' <> []).
+  { intros ->. apply (in_map snd) in Hin. rewrite forallb_forall in Hd. apply Hd in Hin. cbn [snd] in Hin.
+    destruct e; [discriminate|discriminate]. }
+  rewrite types_filenames_enforce, Hn, Hp. cbn [is_none andb].
+  eexists. split; [reflexivity|].
+  rewrite (fold_get _ _ _ _ _ _ (ftypes k) [] nm2 (root ++ (if str_eqb e' (upper e') then upper e2 else e2) ++ s')).
+  - now rewrite (existsb_fst _ nm2 e2 Hin2).
+  - intros e0 Hin0.
+    assert (E0 : (nm2, e0) = (nm2, e2)) by (apply (NoDup_map_fst_inj (ftypes k)); auto).
+    inversion E0; subst e0.
+    unfold tf_value. cbn [opt_eqb].
+    assert (Hf : str_eqb nm2 nm = false) by now apply str_eqb_neq.
+    rewrite Hf. assert (Hne2 : nonempty e2 = true) by (destruct e2; [discriminate|reflexivity]).
+    rewrite Hne2, (proc_ext_rule e' e2 He'n Hd2).
+    destruct s' as [|c0 s0]; cbn [truthy_opt opt_str]; [now rewrite !app_nil_r|now rewrite <- app_assoc].
+Qed.
+
+(* ------------------------------------------------------------------ filespec_to_file_map *)
+Lemma wf_class_inv k : wf_class k = true ->
+  wf_names k = true /\ fkind k < 2 /\
+  (forall v, In v (vexts k) -> In v (exts_of k) \/ (fkind k = 1 /\ v = MGZ)) /\
+  (fkind k = 1 -> csuf k = [] /\ sniffs k = false /\ ~ In MGZ (exts_of k)).
+Proof.
+  unfold wf_class. rewrite !andb_true_iff. intros [[[H1 H2] H3] H4].
+  split; [assumption|]. split; [lia|]. split.
+  - intros v Hv. rewrite forallb_forall in H3. specialize (H3 v Hv).
+    apply orb_true_iff in H3 as [H3|H3].
+    + left. apply existsb_exists in H3 as (x & Hx & E). apply str_eqb_eq in E. now subst.
+    + right. apply andb_true_iff in H3 as [Ha Hb]. apply str_eqb_eq in Hb. split; [lia|assumption].
+  - intros Hk. apply orb_true_iff in H4 as [H4|H4]; [lia|].
+    rewrite !andb_true_iff in H4. destruct H4 as [[Ha Hb] Hc].
+    split; [destruct (csuf k); [reflexivity|discriminate]|]. split; [now apply negb_true_iff in Hb|].
+    apply negb_true_iff in Hc. intros Hin.
+    assert (existsb (str_eqb MGZ) (exts_of k) = true); [|congruence].
+    apply existsb_exists. exists MGZ. split; [assumption|apply str_eqb_refl].
+Qed.
+
+Lemma MGZ_dottedl : dottedl MGZ = true.
+Proof. reflexivity. Qed.
+
+Lemma filespec_named_member k root nm e e' s' :
+  wf_class k = true -> In (nm, e) (ftypes k) -> lower e' = lower e -> suffix_ok k s' ->
+  exists fm, filespec_to_file_map k (root ++ e' ++ s') = Ok fm
+             /\ dict_get fm nm = Some (root ++ e' ++ s').
+Proof.
+  intros Hwf Hin He Hs.
+  destruct (wf_class_inv k Hwf) as (Hn & Hk & _ & H1).
+  unfold filespec_to_file_map.
+  destruct (fkind k =? 1) eqn:E1; cbn [andb]; [|now apply (tf_named_member k root nm e e' s')].
+  apply Z.eqb_eq in E1. destruct (H1 E1) as (Hcs & _ & Hmgz).
+  assert (Hs0 : s' = []).
+  { destruct Hs as [->|(s & Hsin & _)]; [reflexivity|]. rewrite Hcs in Hsin. contradiction. }
+  subst s'. rewrite app_nil_r in *.
+  destruct (wf_names_inv k Hn) as (_ & _ & Hd & _).
+  assert (He_in : In e (exts_of k)) by (apply (in_map snd) in Hin; exact Hin).
+  assert (Hde : dottedl e = true) by (rewrite forallb_forall in Hd; auto).
+  assert (Hde' : dottedi e' = true).
+  { apply (dottedi_variant e e' He). now apply dotted_dottedi, dottedl_dotted. }
+  assert (Hx : str_eqb (lower (snd (os_splitext (root ++ e')))) MGZ = false).
+  { apply str_eqb_neq. destruct (os_splitext_dotted root e' Hde') as [-> | ->]; cbn [snd].
+    - rewrite He, (dottedl_lower e Hde). intros ->. contradiction.
+    - discriminate. }
+  rewrite Hx. pose proof (tf_named_member k root nm e e' [] Hn Hin He (or_introl eq_refl)) as Ht.
+  now rewrite app_nil_r in Ht.
+Qed.
+
+Lemma filespec_mgz k root m' :
+  fkind k = 1 -> lower m' = MGZ -> os_splitext (root ++ m') = (root, m') ->
+  filespec_to_file_map k (root ++ m') = Ok [(IMAGE, root ++ m')].
+Proof.
+  intros Hk Hm Ho. unfold filespec_to_file_map. rewrite Hk, Ho. cbn [snd Z.eqb Pos.eqb andb].
+  rewrite Hm. now rewrite str_eqb_refl.
+Qed.
+
+(* ------------------------------------------------------------------ load: a class that accepts the extension accepts the name *)
+Lemma iendswith_last w t : iendswith w t = true -> dottedi t = true ->
+  exists w0 c, w = w0 ++ [c] /\ c <> DOT.
+Proof.
+  intros H Ht. unfold iendswith in H. apply endswith_spec in H as [r H].
+  assert (Hl : dottedi (lower t) = true) by (apply (dottedi_variant t); [apply lower_idem|assumption]).
+  destruct (dottedi_last _ Hl) as (a & c0 & Ea & Hc0).
+  rewrite Ea, app_assoc in H. unfold lower in H. apply map_last in H as (w0 & c & -> & Hc & _).
+  exists w0, c. split; [reflexivity|]. intros ->. apply Hc0. rewrite <- Hc. reflexivity.
+Qed.
+
+Lemma ext_valid_inv k fn : wf_class k = true -> ext_valid k fn = true ->
+  exists root ext o, strip_suffix false (csuf k) fn = (root ++ ext, o)
+    /\ splitext_addext false (csuf k) fn = (root, ext, opt_str o)
+    /\ In (lower ext) (vexts k) /\ dottedi ext = true.
+Proof.
+  intros Hwf Hv. destruct (wf_class_inv k Hwf) as (Hn & _ & Hve & _).
+  destruct (wf_names_inv k Hn) as (_ & _ & Hd & _).
+  unfold ext_valid in Hv. unfold splitext_addext in *.
+  destruct (strip_suffix false (csuf k) fn) as [fn1 o] eqn:Est.
+  assert (Hvd : forall v, In v (vexts k) -> dottedl v = true).
+  { intros v Hin. destruct (Hve v Hin) as [H|[_ ->]]; [|reflexivity]. rewrite forallb_forall in Hd. auto. }
+  destruct ((rfind DOT fn1 <? 0) || all_dots fn1).
+  - apply existsb_exists in Hv as (v & Hin & E). apply str_eqb_eq in E. cbn in E. subst v.
+    apply Hvd in Hin. discriminate.
+  - apply existsb_exists in Hv as (v & Hin & E). apply str_eqb_eq in E.
+    exists (take (rfind DOT fn1) fn1), (drop (rfind DOT fn1) fn1), o.
+    unfold take at 1, drop at 1. rewrite firstn_skipn. repeat split; try reflexivity.
+    + now rewrite E.
+    + apply (dottedi_variant v); [rewrite E; symmetry; apply dottedl_lower; auto|].
+      apply dotted_dottedi, dottedl_dotted; auto.
+Qed.
+
+Lemma tf_of_valid k fn root ext o :
+  wf_names k = true -> strip_suffix false (csuf k) fn = (root ++ ext, o) ->
+  dottedi ext = true -> In (lower ext) (exts_of k) ->
+  exists tf n, types_filenames true false (ftypes k) (csuf k) fn = Ok tf /\ dict_get tf n = Some fn.
+Proof.
+  intros Hn Hst Hde Hin.
+  destruct (wf_names_inv k Hn) as (_ & _ & Hd & _ & Hsd & _ & _).
+  assert (Hexti : forallb dottedi (map snd (ftypes k)) = true).
+  { eapply forallb_weaken; [|exact Hd]. intros x Hx. now apply dotted_dottedi, dottedl_dotted. }
+  (* the name does not end in a dot *)
+  assert (Hlast : exists a c, fn = a ++ [c] /\ c <> DOT).
+  { pose proof (strip_suffix_app _ _ _ _ _ Hst) as Hfn. destruct o as [ig|].
+    - apply strip_suffix_inv in Hst as (t & Ht & He & _). cbn [ends] in He.
+      apply (iendswith_last fn t He). apply dotted_dottedi. rewrite forallb_forall in Hsd. auto.
+    - cbn [opt_str] in Hfn. rewrite app_nil_r in Hfn. subst fn.
+      destruct (dottedi_last ext Hde) as (a & c & -> & Hc). exists (root ++ a), c. now rewrite app_assoc. }
+  destruct Hlast as (a & c & Ea & Hc).
+  assert (Hnt : norm_template fn = fn) by (rewrite Ea; now apply norm_template_id).
+  (* some member extension matches *)
+  assert (Hf : exists n te, find (fun p : str * str => ieq ext (snd p)) (ftypes k) = Some (n, te)).
+  { destruct (find (fun p : str * str => ieq ext (snd p)) (ftypes k)) as [[n te]|] eqn:Ef; [now exists n, te|].
+    exfalso. unfold exts_of in Hin. apply in_map_iff in Hin as ([n v] & Ev & Hin). cbn [snd] in Ev.
+    pose proof (find_none _ _ Ef _ Hin) as Hno. cbn [snd] in Hno. unfold ieq in Hno.
+    rewrite Ev, lower_idem, str_eqb_refl in Hno. discriminate. }
+  destruct Hf as (n & te & Hf).
+  assert (Hp : parse_filename false (ftypes k) (csuf k) (norm_template fn) = (root, ext, o, Some n)).
+  { rewrite Hnt. unfold parse_filename. rewrite Hst, (match_type_dotted _ root ext Hexti Hde), Hf. reflexivity. }
+  destruct (tf_guessed _ _ _ _ _ _ _ _ Hp) as (tf & Htf & Hg).
+  exists tf, n. now rewrite Hnt in Hg.
+Qed.
+
+(* posixpath.splitext (MGHImage.filespec_to_file_map) and splitext_addext (path_maybe_image)
+   agree that the name ends in a spelling of ".mgz" *)
+Definition mgz_agree (fn : str) : Prop :=
+  forall r x a, splitext_addext false [] fn = (r, x, a) -> lower x = MGZ ->
+                lower (snd (os_splitext fn)) = MGZ.
+
+Lemma ext_valid_accepts k fn :
+  wf_class k = true -> ext_valid k fn = true -> (fkind k = 1 -> mgz_agree fn) ->
+  exists fm n, filespec_to_file_map k fn = Ok fm /\ dict_get fm n = Some fn.
+Proof.
+  intros Hwf Hv Hag.
+  destruct (ext_valid_inv k fn Hwf Hv) as (root & ext & o & Hst & Hsa & Hin & Hde).
+  destruct (wf_class_inv k Hwf) as (Hn & _ & Hve & H1).
+  unfold filespec_to_file_map.
+  destruct ((fkind k =? 1) && str_eqb (lower (snd (os_splitext fn))) MGZ) eqn:Eb.
+  - exists [(IMAGE, fn)], IMAGE. split; reflexivity.
+  - destruct (Hve _ Hin) as [Hx|[Hk Hm]]; [now apply (tf_of_valid k fn root ext o)|].
+    exfalso. destruct (H1 Hk) as (Hcs & _). rewrite Hcs in Hsa.
+    specialize (Hag Hk _ _ _ Hsa Hm). rewrite Hk, Hag in Eb. discriminate.
+Qed.
+
+(* _sniff_meta_for never raises TypesFilenamesError on a name whose extension was accepted *)
+Lemma path_maybe_image_total k fn b :
+  (sniffs k = false \/ wf_class k = true) -> exists r, path_maybe_image k fn b = Ok r.
+Proof.
+  intros H. unfold path_maybe_image.
+  destruct (ext_valid k fn) eqn:Ev; cbn [negb]; [|now eexists].
+  destruct (sniffs k) eqn:Es; cbn [negb]; [|now eexists].
+  destruct H as [H|Hwf]; [discriminate|].
+  destruct (ext_valid_inv k fn Hwf Ev) as (root & ext & o & Hst & Hsa & Hin & Hde).
+  destruct (wf_class_inv k Hwf) as (Hn & _ & Hve & H1).
+  assert (Hx : In (lower ext) (exts_of k)).
+  { destruct (Hve _ Hin) as [Hx|[Hk _]]; [assumption|]. destruct (H1 Hk) as (_ & Hs & _). congruence. }
+  destruct (tf_of_valid k fn root ext o Hn Hst Hde Hx) as (tf & n & Htf & _).
+  unfold sniff_name. rewrite Htf. now eexists.
+Qed.
+
+Lemma path_maybe_image_true k fn b : path_maybe_image k fn b = Ok true -> ext_valid k fn = true.
+Proof.
+  unfold path_maybe_image. destruct (ext_valid k fn); cbn [negb]; [reflexivity|discriminate].
+Qed.
+
+Definition table_ok (ks : list klass) : Prop := forall k, In k ks -> sniffs k = false \/ wf_class k = true.
+
+(* the class loop: it stops at or before any class that accepts the name, never raises, and
+   the class it picks accepts the extension *)
+Lemma load_class_finds ks : forall oracle fn i n k,
+  table_ok ks -> nth_error ks n = Some k ->
+  path_maybe_image k fn (nth n oracle false) = Ok true ->
+  exists j kj, load_class ks oracle fn i = Ok (Some (i + j)%nat) /\ (j <= n)%nat
+               /\ nth_error ks j = Some kj /\ ext_valid kj fn = true.
+Proof.
+  induction ks as [|k0 ks IH]; intros oracle fn i n k Hok Hn Hp; [destruct n; discriminate|].
+  cbn [load_class].
+  destruct (path_maybe_image_total k0 fn (hd false oracle) (Hok k0 (or_introl eq_refl))) as [r Hr].
+  rewrite Hr. destruct r.
+  - exists 0%nat, k0. rewrite Nat.add_0_r. repeat split; [lia|now apply (path_maybe_image_true k0 fn (hd false oracle))].
+  - destruct n as [|n].
+    + cbn in Hn. inversion Hn; subst k0. destruct oracle; cbn in *; congruence.
+    + cbn [nth_error] in Hn.
+      assert (Hp' : path_maybe_image k fn (nth n (tl oracle) false) = Ok true) by (destruct oracle; [destruct n|]; exact Hp).
+      destruct (IH (tl oracle) fn (S i) n k (fun k' H' => Hok k' (or_intror H')) Hn Hp') as (j & kj & Hl & Hj & Hnj & Hv).
+      exists (S j), kj. rewrite Nat.add_succ_r. repeat split; [exact Hl|lia|exact Hnj|exact Hv].
+Qed.
+
+Lemma load_class_sound ks : forall oracle fn i j,
+  load_class ks oracle fn i = Ok (Some j) ->
+  exists kj, (i <= j)%nat /\ nth_error ks (j - i) = Some kj /\ ext_valid kj fn = true.
+Proof.
+  induction ks as [|k0 ks IH]; intros oracle fn i j H; cbn [load_class] in H; [discriminate|].
+  destruct (path_maybe_image k0 fn (hd false oracle)) as [[|]|] eqn:Hp; [| |discriminate].
+  - inversion H; subst. exists k0. rewrite Nat.sub_diag. repeat split; [lia|now apply (path_maybe_image_true k0 fn (hd false oracle))].
+  - destruct (IH _ _ _ _ H) as (kj & Hle & Hn & Hv). exists kj. repeat split; [lia| |exact Hv].
+    replace (j - i)%nat with (S (j - S i)) by lia. exact Hn.
+Qed.
+
+Lemma load_class_total ks : forall oracle fn i, table_ok ks -> exists r, load_class ks oracle fn i = Ok r.
+Proof.
+  induction ks as [|k0 ks IH]; intros oracle fn i Hok; cbn [load_class]; [now eexists|].
+  destruct (path_maybe_image_total k0 fn (hd false oracle) (Hok k0 (or_introl eq_refl))) as [r Hr].
+  rewrite Hr. destruct r; [now eexists|]. apply IH. intros k' H'. apply Hok. now right.
+Qed.
+
+(* ------------------------------------------------------------------ written names are accepted by their class *)
+Lemma dottedi_tail x : dottedi x = true ->
+  exists t, x = DOT :: t /\ ~ In DOT t /\ all_dots (DOT :: t) = false.
+Proof.
+  intros H. apply dottedi_inv in H as (t & -> & Hn & Hf). exists t. split; [reflexivity|].
+  assert (Nd : ~ In DOT t).
+  { intros Hin. rewrite Forall_forall in Hf. apply Hf in Hin. apply is_ialnum_not_dot in Hin. tauto. }
+  split; [assumption|]. destruct t as [|c t]; [congruence|]. cbn.
+  destruct (Z.eqb_spec c DOT) as [->|]; [|reflexivity]. exfalso. apply Nd. now left.
+Qed.
+
+Lemma all_dots_app a b : all_dots (a ++ b) = all_dots a && all_dots b.
+Proof. unfold all_dots. apply forallb_app. Qed.
+
+Lemma splitext_addext_written sufs root x o :
+  strip_suffix false sufs (root ++ x ++ opt_str o) = (root ++ x, o) -> dottedi x = true ->
+  splitext_addext false sufs (root ++ x ++ opt_str o) = (root, x, opt_str o).
+Proof.
+  intros Hst Hx. unfold splitext_addext. rewrite Hst.
+  destruct (dottedi_tail x Hx) as (t & -> & Nd & Had).
+  rewrite (rfind_last DOT root t Nd), all_dots_app, Had, andb_false_r.
+  assert (H0 : 0 <= zlen root) by (unfold zlen; lia).
+  destruct (Z.ltb_spec (zlen root) 0); [lia|]. cbn [orb].
+  now rewrite take_app_exact, drop_app_exact.
+Qed.
+
+Lemma strip_suffix_written k root e e' s' :
+  wf_class k = true -> In e (vexts k) -> lower e' = lower e -> suffix_ok k s' ->
+  dottedi e' = true /\
+  strip_suffix false (csuf k) (root ++ e' ++ s') = (root ++ e', match s' with [] => None | _ => Some s' end).
+Proof.
+  intros Hwf Hin He Hs.
+  destruct (wf_class_inv k Hwf) as (Hn & _ & Hve & H1).
+  destruct (wf_names_inv k Hn) as (_ & _ & Hd & _ & Hsd & _ & Hes).
+  assert (Hsufi : forallb dottedi (csuf k) = true) by (eapply forallb_weaken; [apply dotted_dottedi|assumption]).
+  assert (Hde : dottedl e = true).
+  { destruct (Hve e Hin) as [H|[_ ->]]; [|reflexivity]. rewrite forallb_forall in Hd. auto. }
+  assert (Hde' : dottedi e' = true) by (apply (dottedi_variant e e' He); now apply dotted_dottedi, dottedl_dotted).
+  split; [assumption|].
+  destruct Hs as [->|(s & Hsin & Hls)].
+  - rewrite app_nil_r, (strip_suffix_dotted _ root e' Hsufi Hde').
+    assert (Ex : existsb (ieq e') (csuf k) = false).
+    { destruct (Hve e Hin) as [Hx|[Hk _]].
+      - destruct (existsb (ieq e') (csuf k)) eqn:Ex; [|reflexivity].
+        apply existsb_exists in Ex as (t & Ht & Et). rewrite (ieq_variant e e' t He), (Hes e t Hx Ht) in Et. discriminate.
+      - destruct (H1 Hk) as (-> & _). reflexivity. }
+    now rewrite Ex.
+  - assert (Hds' : dottedi s' = true).
+    { apply (dottedi_variant s s' Hls). apply dotted_dottedi. rewrite forallb_forall in Hsd. auto. }
+    rewrite app_assoc, (strip_suffix_dotted _ (root ++ e') s' Hsufi Hds').
+    assert (Ex : existsb (ieq s') (csuf k) = true).
+    { apply existsb_exists. exists s. split; [assumption|]. unfold ieq. rewrite Hls. apply str_eqb_refl. }
+    rewrite Ex. destruct s'; [discriminate|reflexivity].
+Qed.
+
+Lemma ext_valid_written k root e e' s' :
+  wf_class k = true -> In e (vexts k) -> lower e' = lower e -> suffix_ok k s' ->
+  ext_valid k (root ++ e' ++ s') = true.
+Proof.
+  intros Hwf Hin He Hs.
+  destruct (strip_suffix_written k root e e' s' Hwf Hin He Hs) as (Hde' & Hst).
+  destruct (wf_class_inv k Hwf) as (Hn & _ & Hve & _).
+  destruct (wf_names_inv k Hn) as (_ & _ & Hd & _).
+  assert (Hle : lower e = e).
+  { apply dottedl_lower. destruct (Hve e Hin) as [H|[_ ->]]; [|reflexivity]. rewrite forallb_forall in Hd. auto. }
+  unfold ext_valid.
+  set (o := match s' with [] => None | _ => Some s' end) in *.
+  assert (Eo : s' = opt_str o) by (destruct s'; reflexivity).
+  rewrite Eo in Hst |- *. rewrite (splitext_addext_written _ root e' o Hst Hde').
+  apply existsb_exists. exists e. split; [assumption|]. rewrite He, Hle. apply str_eqb_refl.
+Qed.
+
+Lemma path_maybe_image_written k fn :
+  wf_class k = true -> ext_valid k fn = true -> path_maybe_image k fn true = Ok true.
+Proof.
+  intros Hwf Hv. destruct (path_maybe_image_total k fn true (or_intror Hwf)) as [r Hr].
+  rewrite Hr. unfold path_maybe_image in Hr. rewrite Hv in Hr. cbn [negb] in Hr.
+  destruct (sniffs k); cbn [negb] in Hr; [|congruence].
+  destruct (sniff_name k fn); congruence.
+Qed.
+
+Lemma strip_suffix_nil fn : strip_suffix false [] fn = (fn, None).
+Proof. reflexivity. Qed.
+
+Lemma mgz_agree_one root x :
+  dottedi x = true -> (lower x = MGZ -> os_splitext (root ++ x) = (root, x)) -> mgz_agree (root ++ x).
+Proof.
+  intros Hx Hst r x0 a Hsa Hm.
+  pose proof (splitext_addext_written [] root x None) as H. cbn [opt_str] in H. rewrite !app_nil_r in H.
+  rewrite (H (strip_suffix_nil _) Hx) in Hsa. inversion Hsa; subst.
+  now rewrite (Hst Hm).
+Qed.
+
+Lemma mgz_agree_two root x y : dottedi x = true -> dottedi y = true -> mgz_agree (root ++ x ++ y).
+Proof.
+  intros Hx Hy. rewrite app_assoc. apply mgz_agree_one; [assumption|].
+  intros _. now apply os_splitext_two.
+Qed.
+
+Lemma mgz_agree_written k root e e' s' :
+  wf_class k = true -> In e (vexts k) -> lower e' = lower e -> suffix_ok k s' ->
+  (s' = [] -> lower e' = MGZ -> os_splitext (root ++ e') = (root, e')) ->
+  mgz_agree (root ++ e' ++ s').
+Proof.
+  intros Hwf Hin He Hs Hstem.
+  destruct (strip_suffix_written k root e e' s' Hwf Hin He Hs) as (Hde' & _).
+  destruct Hs as [->|(s & Hsin & Hls)].
+  - rewrite app_nil_r. apply mgz_agree_one; auto.
+  - apply mgz_agree_two; [assumption|].
+    destruct (wf_class_inv k Hwf) as (Hn & _). destruct (wf_names_inv k Hn) as (_ & _ & _ & _ & Hsd & _).
+    apply (dottedi_variant s s' Hls). apply dotted_dottedi. rewrite forallb_forall in Hsd. auto.
+Qed.
+
+(* the theorem about load *)
+Lemma load_finds_class ks oracle n k root e e' s' :
+  table_ok ks -> nth_error ks n = Some k -> wf_class k = true ->
+  In e (vexts k) -> lower e' = lower e -> suffix_ok k s' ->
+  nth n oracle false = true ->
+  (s' = [] -> lower e' = MGZ -> os_splitext (root ++ e') = (root, e')) ->
+  exists j kj, load_class ks oracle (root ++ e' ++ s') 0 = Ok (Some j) /\ (j <= n)%nat
+    /\ nth_error ks j = Some kj /\ ext_valid kj (root ++ e' ++ s') = true
+    /\ (wf_class kj = true ->
+        exists fm nm, filespec_to_file_map kj (root ++ e' ++ s') = Ok fm
+                      /\ dict_get fm nm = Some (root ++ e' ++ s')).
+Proof.
+  intros Hok Hn Hwf Hin He Hs Hor Hstem.
+  pose proof (ext_valid_written k root e e' s' Hwf Hin He Hs) as Hv.
+  pose proof (path_maybe_image_written k _ Hwf Hv) as Hp. rewrite <- Hor in Hp at 1.
+  destruct (load_class_finds ks oracle _ 0 n k Hok Hn Hp) as (j & kj & Hl & Hj & Hnj & Hvj).
+  exists j, kj. repeat split; auto.
+  intros Hwfj. apply ext_valid_accepts; auto. intros _.
+  now apply (mgz_agree_written k root e e' s').
+Qed.
+
+(* ------------------------------------------------------------------ Opener *)
+Lemma opener_index_suffix keys root x y : dottedi x = true -> dottedi y = true ->
+  opener_index keys (root ++ x ++ y) = find_index (fun key => ieq key y) keys 0.
+Proof.
+  intros Hx Hy. unfold opener_index. now rewrite app_assoc, (os_splitext_two root x y Hx Hy).
+Qed.
+
+Lemma find_index_none {A} (f : A -> bool) l : forall i, (forall x, In x l -> f x = false) -> find_index f l i = None.
+Proof.
+  induction l as [|a l IH]; intros i H; cbn; [reflexivity|].
+  rewrite (H a) by now left. apply IH. intros x Hx. apply H. now right.
+Qed.
+
+(* ------------------------------------------------------------------ serialisation routes *)
+Section RoutesProofs.
+  Variable Img : Type.
+  Variable serialize : Img -> list Z.
+  Variable compress decompress : option nat -> list Z -> list Z.
+  Variable keys : list str.
+  Hypothesis codec : forall o b, decompress o (compress o b) = b.
+
+  Lemma routes_equal k img name fs fs' :
+    to_filename Img serialize compress keys k img name fs = Ok (Some fs') ->
+    exists key fname,
+      filespec_to_file_map k name = Ok [(key, fname)]
+      /\ fs' = (fname, compress (opener_index keys fname) (serialize img)) :: fs
+      /\ read_file decompress keys fs' fname = Some (to_bytes Img serialize img)
+      /\ to_stream Img serialize img = to_bytes Img serialize img.
+  Proof.
+    unfold to_filename. destruct (filespec_to_file_map k name) as [fm|] eqn:E; [|discriminate].
+    destruct fm as [|[key fname] [|? ?]]; try discriminate.
+    intros H. inversion H; subst. exists key, fname. repeat split.
+    unfold read_file. cbn [fs_get]. rewrite str_eqb_refl, codec. reflexivity.
+  Qed.
+
+  (* for a name spelled root ++ ext' ++ suffix' the file written is that very name *)
+  Lemma routes_named k img root nm e e' s' fs :
+    wf_class k = true -> ftypes k = [(nm, e)] -> lower e' = lower e -> suffix_ok k s' ->
+    exists fs', to_filename Img serialize compress keys k img (root ++ e' ++ s') fs = Ok (Some fs')
+      /\ read_file decompress keys fs' (root ++ e' ++ s') = Some (to_bytes Img serialize img).
+  Proof.
+    intros Hwf Hft He Hs.
+    assert (Hin : In (nm, e) (ftypes k)) by (rewrite Hft; now left).
+    destruct (filespec_named_member k root nm e e' s' Hwf Hin He Hs) as (fm & Hfm & Hg).
+    assert (Hsingle : exists key, fm = [(key, root ++ e' ++ s')]).
+    { unfold filespec_to_file_map in Hfm.
+      destruct ((fkind k =? 1) && _) in Hfm.
+      - inversion Hfm; subst. now eexists.
+      - rewrite types_filenames_enforce, Hft in Hfm.
+        destruct (parse_filename _ _ _ _) as [[[f x] ign] g]. destruct (_ && _); [discriminate|].
+        destruct (_ && _); [discriminate|]. inversion Hfm; subst fm.
+        unfold tf_step in *. cbn [fold_left dict_set fst] in *. cbn [dict_get] in Hg.
+        rewrite str_eqb_refl in Hg. exists nm. do 2 f_equal. congruence. }
+    destruct Hsingle as [key ->].
+    eexists. unfold to_filename. rewrite Hfm. split; [reflexivity|].
+    unfold read_file. cbn [fs_get]. rewrite str_eqb_refl, codec. reflexivity.
+  Qed.
+End RoutesProofs.
+
+Lemma wf_table_ok ks : wf_table ks = true -> table_ok ks.
+Proof.
+  unfold wf_table, table_ok. rewrite forallb_forall. intros H k Hin. specialize (H k Hin).
+  apply orb_true_iff in H as [H|H]; [now right|]. left.
+  rewrite !andb_true_iff in H. destruct H as [_ H]. now apply negb_true_iff in H.
+Qed.
+
+Lemma mgz_dotfile_refuted :
+  exists k fn fm, wf_class k = true /\ fkind k = 1 /\ In k all_classes
+    /\ ext_valid k fn = true                               (* load() accepts the name for k *)
+    /\ filespec_to_file_map k fn = Ok fm                   (* ... and k maps it to other files *)
+    /\ forall nm, dict_get fm nm <> Some fn.
+Proof.
+  exists k_MGHImage, MGZ, [(IMAGE, MGZ ++ [46;109;103;104])].
+  repeat split; try (vm_compute; reflexivity).
+  - vm_compute. tauto.
+  - intros nm. cbn [dict_get]. destruct (str_eqb IMAGE nm); discriminate.
+Qed.
